@@ -1,355 +1,10 @@
 ------------------------------- MODULE FuelVM -------------------------------
 (***************************************************************************)
-(* The FuelVM interpreter as a state machine: one action per executed      *)
-(* instruction.  Written from the FuelVM instruction-set specification     *)
-(* (registers, flags, panic conditions, gas) — NOT from the Rust code      *)
-(* paths; where the specification leaves a choice (which of several        *)
-(* applicable panics is reported, whether gas is charged before a          *)
-(* non-gas panic) every permitted outcome is admitted.                     *)
-(*                                                                         *)
-(* State of one VM:                                                        *)
-(*   regs  : 0..63 -> BigNat (decimal string)                              *)
-(*   mem   : 64-byte page index -> page (hex); absent page = zeros         *)
-(*   slen  : highest stack extent so far (bytes [0, slen) are accessible)  *)
-(*   env   : static configuration as reported by the implementation        *)
-(*           (gas schedule, tx offset, chain id, ...)                      *)
-(* An instruction's meaning is an EFFECT record computed from the state    *)
-(* and the instruction word; Outcomes(vm, w) is the set of admissible      *)
-(* results built from it.                                                  *)
+(* The FuelVM interpreter: dispatch of an instruction word to the effect   *)
+(* defined by the instruction-family modules, and the application of an    *)
+(* effect to the machine state.  See VmBase for the state and conventions. *)
 (***************************************************************************)
-EXTENDS Naturals, Sequences, FiniteSets, TLC, VmOps
-INSTANCE Hex
-BN == INSTANCE BigNat
-
-\* ---- register file ----
-ZERO == 0  ONE == 1  OF == 2  PC == 3  SSP == 4  SP == 5  FP == 6  HP == 7  ERR == 8  GGAS == 9
-CGAS == 10  BAL == 11  IS == 12  RET == 13  RETL == 14  FLAG == 15
-FirstWritable == 16
-MemSize == 67108864                       \* VM_MAX_RAM = 2^26
-MemSizeBN == "67108864"
-PageSize == 64
-
-R(vm, i) == vm.regs[i]
-Writable(r) == r >= FirstWritable
-FlagBit(vm, bit) == (BN!ToNat(BN!Mod(R(vm, FLAG), "4")) \div bit) % 2 = 1
-UnsafeMath(vm) == FlagBit(vm, 1)          \* F_UNSAFEMATH = 0x01
-Wrapping(vm)   == FlagBit(vm, 2)          \* F_WRAPPING   = 0x02
-PcNext(vm) == BN!Min(BN!Add(R(vm, PC), "4"), BN!Max64)
-Low64(x)  == BN!Mod(x, BN!Two64)
-High64(x) == BN!Shr(x, 64)
-B2N(b) == IF b THEN "1" ELSE "0"
-
-\* ---- memory ----
-Page(m, p) == IF p \in DOMAIN m THEN m[p] ELSE Zeros(PageSize)
-SetPage(m, p, v) == IF IsZero(v) THEN [q \in DOMAIN m \ {p} |-> m[q]] ELSE (p :> v) @@ m
-RECURSIVE WriteBytes(_, _, _)
-WriteBytes(m, a, d) ==
-    IF d = "" THEN m
-    ELSE LET p   == a \div PageSize
-             off == a % PageSize
-             n   == IF PageSize - off < BLen(d) THEN PageSize - off ELSE BLen(d)
-         IN WriteBytes(SetPage(m, p, Splice(Page(m, p), off, Slice(d, 0, n))), a + n, Slice(d, n, BLen(d) - n))
-RECURSIVE ReadBytes(_, _, _)
-ReadBytes(m, a, n) ==
-    IF n = 0 THEN ""
-    ELSE LET p   == a \div PageSize
-             off == a % PageSize
-             k   == IF PageSize - off < n THEN PageSize - off ELSE n
-         IN Slice(Page(m, p), off, k) \o ReadBytes(m, a + k, n - k)
-RECURSIVE ApplyWrites(_, _, _)
-ApplyWrites(m, ws, i) == IF i > Len(ws) THEN m ELSE ApplyWrites(WriteBytes(m, ws[i][1], ws[i][2]), ws, i + 1)
-
-HpN(vm) == BN!ToNat(R(vm, HP))
-\* a range given by BigNat start/length is accessible iff it fits memory and lies entirely in the stack
-\* extent or entirely in the heap
-RangeOverflows(a, n) == BN!Lt(MemSizeBN, a) \/ BN!Lt(MemSizeBN, n) \/ BN!Lt(MemSizeBN, BN!Add(a, n))
-Accessible(vm, a, n) == /\ ~RangeOverflows(a, n)
-                        /\ (BN!Le(BN!Add(a, n), BN!FromNat(vm.slen)) \/ BN!Le(R(vm, HP), a))
-\* the panic a read of [a, a+n) raises, as a set (empty = none)
-ReadPanics(vm, a, n) == IF RangeOverflows(a, n) THEN {"MemoryOverflow"}
-                        ELSE IF Accessible(vm, a, n) THEN {} ELSE {"UninitalizedMemoryAccess"}
-
-\* ---- gas ----
-GasOf(vm, name) == vm.env.gas[name]
-\* a dependent cost: light = base + units / units_per_gas ; heavy = base + units * gas_per_unit (saturating at u64)
-Sat64(x) == BN!Min(x, BN!Max64)
-DepNoBase(c, units) == IF c.k = "light" THEN BN!Div(units, c.u) ELSE Sat64(BN!Mul(units, c.u))
-Dep(c, units) == Sat64(BN!Add(c.base, DepNoBase(c, units)))
-
-(***************************************************************************)
-(* ALU (C21)                                                               *)
-(***************************************************************************)
-\* result of a register-level arithmetic/logic operation: [pan, val, of, err]
-Res(pan, val, of, err) == [pan |-> pan, val |-> val, of |-> of, err |-> err]
-\* capture-overflow family: the true result x as a natural; $of = high 64 bits, value = low 64 bits
-Capture(vm, x) == Res(IF BN!Lt(BN!Max64, x) /\ ~Wrapping(vm) THEN {"ArithmeticOverflow"} ELSE {}, Low64(x), High64(x), "0")
-\* subtraction below zero is the 128-bit two's complement: value = (b - c) mod 2^64, $of = 2^64 - 1
-SubRes(vm, b, c) == IF BN!Le(c, b) THEN Res({}, BN!Sub(b, c), "0", "0")
-                    ELSE Res(IF Wrapping(vm) THEN {} ELSE {"ArithmeticOverflow"}, BN!Sub(BN!Add(b, BN!Two64), c), BN!Max64, "0")
-\* boolean-overflow family: ovf tells whether the true result exceeds 64 bits
-BoolOvf(vm, ovf, x) == Res(IF ovf /\ ~Wrapping(vm) THEN {"ArithmeticOverflow"} ELSE {}, IF ovf THEN "0" ELSE x, B2N(ovf), "0")
-\* error family: bad tells whether the operation is undefined
-ErrFam(vm, bad, x) == Res(IF bad /\ ~UnsafeMath(vm) THEN {"ArithmeticError"} ELSE {}, IF bad THEN "0" ELSE x, "0", B2N(bad))
-SetFam(x) == Res({}, x, "0", "0")
-
-\* b ^ c as a natural does not fit 64 bits?
-PowOverflows(b, c) == IF BN!Lt(b, "2") THEN FALSE
-                      ELSE IF BN!Lt("64", c) THEN TRUE ELSE BN!Lt(BN!Max64, BN!Pow(b, c))
-PowVal(b, c) == IF b = "0" THEN (IF c = "0" THEN "1" ELSE "0") ELSE IF b = "1" THEN "1" ELSE BN!Pow(b, c)
-ShiftL(b, c) == IF BN!Lt("63", c) THEN "0" ELSE Low64(BN!Shl(b, BN!ToNat(c)))
-ShiftR(b, c) == IF BN!Lt("63", c) THEN "0" ELSE BN!Shr(b, BN!ToNat(c))
-Not64(b) == BN!Sub(BN!Max64, b)
-\* fused multiply-divide with a 128-bit intermediate; a zero divider means 2^64
-MulDiv(vm, b, c, d) == LET q == BN!Div(BN!Mul(b, c), IF d = "0" THEN BN!Two64 ELSE d) IN
-                       Res(IF BN!Lt(BN!Max64, q) /\ ~Wrapping(vm) THEN {"ArithmeticOverflow"} ELSE {}, Low64(q), High64(q), "0")
-
-\* narrow-integer operations (NIOP): imm6 = op (bits 0..3) + width (bits 4..5)
-NiopOpOf(imm) == imm % 16       \* 0 ADD, 1 SUB, 2 MUL, 3 EXP, 4 SLL, 5 XNOR
-NiopWidthOf(imm) == imm \div 16 \* 0 -> 8 bits, 1 -> 16 bits, 2 -> 32 bits
-NiopValid(imm) == NiopOpOf(imm) <= 5 /\ NiopWidthOf(imm) <= 2
-NiopBits(imm) == IF NiopWidthOf(imm) = 0 THEN 8 ELSE IF NiopWidthOf(imm) = 1 THEN 16 ELSE 32
-Niop(vm, b0, c0, imm) ==
-    LET bits == NiopBits(imm)
-        M    == BN!Shl("1", bits)                 \* 2^bits
-        b    == BN!Mod(b0, M)
-        c    == BN!Mod(c0, M)
-        op   == NiopOpOf(imm)
-        \* [val, of] of the exact operation on the truncated operands
-        r == CASE op = 0 -> LET x == BN!Add(b, c) IN <<BN!Mod(x, M), BN!Shr(x, bits)>>
-               [] op = 2 -> LET x == BN!Mul(b, c) IN <<BN!Mod(x, M), BN!Shr(x, bits)>>
-               [] op = 3 -> IF (IF BN!Lt(b, "2") THEN FALSE ELSE IF BN!Lt("32", c) THEN TRUE ELSE ~BN!Lt(BN!Pow(b, c), M))
-                            THEN <<"0", "1">> ELSE <<PowVal(b, c), "0">>
-               [] op = 4 -> <<IF BN!Lt("63", c) THEN "0" ELSE BN!Mod(Low64(BN!Shl(b, BN!ToNat(c))), M), "0">>
-               [] op = 5 -> <<BN!Mod(Not64(BN!Xor(b, c)), M), "0">>
-               [] op = 1 -> IF BN!Le(c, b) THEN <<BN!Sub(b, c), "0">> ELSE <<BN!Sub(BN!Add(b, M), c), BN!Max64>>
-    IN Res(IF r[2] # "0" /\ ~Wrapping(vm) THEN {"ArithmeticOverflow"} ELSE {}, r[1], r[2], "0")
-
-AluNames == {"ADD","ADDI","AND","ANDI","DIV","DIVI","EQ","EXP","EXPI","GT","LT","MLOG","MOD","MODI","MOVE","MOVI",
-             "MROO","MUL","MULI","MLDV","NIOP","NOT","OR","ORI","SLL","SLLI","SRL","SRLI","SUB","SUBI","XOR","XORI"}
-\* the schedule entry charged by each ALU instruction
-AluGas == [n \in AluNames |->
-    CASE n = "ADD" -> "add" [] n = "ADDI" -> "addi" [] n = "AND" -> "and" [] n = "ANDI" -> "andi" [] n = "DIV" -> "div"
-      [] n = "DIVI" -> "divi" [] n = "EQ" -> "eq" [] n = "EXP" -> "exp" [] n = "EXPI" -> "expi" [] n = "GT" -> "gt"
-      [] n = "LT" -> "lt" [] n = "MLOG" -> "mlog" [] n = "MOD" -> "mod" [] n = "MODI" -> "modi" [] n = "MOVE" -> "move"
-      [] n = "MOVI" -> "movi" [] n = "MROO" -> "mroo" [] n = "MUL" -> "mul" [] n = "MULI" -> "muli" [] n = "MLDV" -> "mldv"
-      [] n = "NIOP" -> "niop" [] n = "NOT" -> "not" [] n = "OR" -> "or" [] n = "ORI" -> "ori" [] n = "SLL" -> "sll"
-      [] n = "SLLI" -> "slli" [] n = "SRL" -> "srl" [] n = "SRLI" -> "srli" [] n = "SUB" -> "sub" [] n = "SUBI" -> "subi"
-      [] n = "XOR" -> "xor" [] n = "XORI" -> "xori"]
-
-AluRes(vm, n, w) ==
-    LET b   == R(vm, RB(w))
-        c   == R(vm, RC(w))
-        i12 == BN!FromNat(Imm12(w))
-    IN CASE n = "ADD"  -> Capture(vm, BN!Add(b, c))
-         [] n = "ADDI" -> Capture(vm, BN!Add(b, i12))
-         [] n = "MUL"  -> Capture(vm, BN!Mul(b, c))
-         [] n = "MULI" -> Capture(vm, BN!Mul(b, i12))
-         [] n = "SUB"  -> SubRes(vm, b, c)
-         [] n = "SUBI" -> SubRes(vm, b, i12)
-         [] n = "EXP"  -> BoolOvf(vm, PowOverflows(b, c), IF PowOverflows(b, c) THEN "0" ELSE PowVal(b, c))
-         [] n = "EXPI" -> BoolOvf(vm, PowOverflows(b, i12), IF PowOverflows(b, i12) THEN "0" ELSE PowVal(b, i12))
-         [] n = "DIV"  -> ErrFam(vm, c = "0", IF c = "0" THEN "0" ELSE BN!Div(b, c))
-         [] n = "DIVI" -> ErrFam(vm, i12 = "0", IF i12 = "0" THEN "0" ELSE BN!Div(b, i12))
-         [] n = "MOD"  -> ErrFam(vm, c = "0", IF c = "0" THEN "0" ELSE BN!Mod(b, c))
-         [] n = "MODI" -> ErrFam(vm, i12 = "0", IF i12 = "0" THEN "0" ELSE BN!Mod(b, i12))
-         [] n = "MLOG" -> LET bad == b = "0" \/ BN!Le(c, "1") IN ErrFam(vm, bad, IF bad THEN "0" ELSE BN!FloorLog(b, c))
-         [] n = "MROO" -> ErrFam(vm, c = "0", IF c = "0" THEN "0"
-                                               ELSE IF BN!Lt("64", c) THEN (IF BN!Lt(b, "2") THEN b ELSE "1") ELSE BN!FloorRoot(b, c))
-         [] n = "AND"  -> SetFam(BN!And(b, c))
-         [] n = "ANDI" -> SetFam(BN!And(b, i12))
-         [] n = "OR"   -> SetFam(BN!Or(b, c))
-         [] n = "ORI"  -> SetFam(BN!Or(b, i12))
-         [] n = "XOR"  -> SetFam(BN!Xor(b, c))
-         [] n = "XORI" -> SetFam(BN!Xor(b, i12))
-         [] n = "NOT"  -> SetFam(Not64(b))
-         [] n = "EQ"   -> SetFam(B2N(b = c))
-         [] n = "GT"   -> SetFam(B2N(BN!Lt(c, b)))
-         [] n = "LT"   -> SetFam(B2N(BN!Lt(b, c)))
-         [] n = "MOVE" -> SetFam(b)
-         [] n = "MOVI" -> SetFam(BN!FromNat(Imm18(w)))
-         [] n = "SLL"  -> SetFam(ShiftL(b, c))
-         [] n = "SLLI" -> SetFam(ShiftL(b, i12))
-         [] n = "SRL"  -> SetFam(ShiftR(b, c))
-         [] n = "SRLI" -> SetFam(ShiftR(b, i12))
-         [] n = "MLDV" -> MulDiv(vm, b, c, R(vm, RD(w)))
-         [] n = "NIOP" -> IF NiopValid(Imm06(w)) THEN Niop(vm, b, c, Imm06(w)) ELSE Res({"InvalidImmediateValue"}, "0", "0", "0")
-
-(***************************************************************************)
-(* Effects.  An effect is                                                  *)
-(*   [x    : TRUE iff the instruction is modelled exactly,                 *)
-(*    gas  : cost charged (BigNat),                                        *)
-(*    pan  : set of panic reasons that apply (other than OutOfGas),        *)
-(*    set  : register index -> new value (on success; includes $pc),       *)
-(*    wr   : sequence of <<address, bytes>> written on success,            *)
-(*    slen : new stack extent on success,                                  *)
-(*    out  : "proceed" (default) | "return" | "returndata" | "revert"]     *)
-(***************************************************************************)
-Eff(gas, pan, set, wr, slen) == [x |-> TRUE, gas |-> gas, pan |-> pan, set |-> set, wr |-> wr, slen |-> slen, out |-> "proceed", rc |-> <<>>, pmay |-> <<>>]
-Unmodelled == [x |-> FALSE, gas |-> "0", pan |-> {}, set |-> <<>>, wr |-> <<>>, slen |-> 0, out |-> "proceed", rc |-> <<>>, pmay |-> <<>>]
-
-AluEff(vm, n, w) ==
-    LET r  == AluRes(vm, n, w)
-        ra == RA(w)
-    IN Eff(GasOf(vm, AluGas[n]),
-           r.pan \cup (IF Writable(ra) THEN {} ELSE {"ReservedRegisterNotWritable"}),
-           (ra :> r.val) @@ (OF :> r.of) @@ (ERR :> r.err) @@ (PC :> PcNext(vm)), <<>>, vm.slen)
-
-NoopEff(vm) == Eff(GasOf(vm, "noop"), {}, (OF :> "0") @@ (ERR :> "0") @@ (PC :> PcNext(vm)), <<>>, vm.slen)
-FlagEff(vm, w) == LET a == R(vm, RA(w)) IN
-    Eff(GasOf(vm, "flag"), IF BN!Lt("3", a) THEN {"InvalidFlags"} ELSE {}, (FLAG :> a) @@ (PC :> PcNext(vm)), <<>>, vm.slen)
-
-(***************************************************************************)
-(* Control flow (C25).  Jump targets are computed with saturating 64-bit   *)
-(* arithmetic and must lie below the memory size.                          *)
-(***************************************************************************)
-SatAdd(a, b) == Sat64(BN!Add(a, b))
-SatMul(a, b) == Sat64(BN!Mul(a, b))
-\* mode: "abs" (relative to $is), "fwd", "bwd", "assign"
-JumpTarget(vm, mode, dyn, fixed) ==
-    CASE mode = "abs"    -> [ok |-> TRUE, t |-> SatAdd(R(vm, IS), SatMul(SatAdd(dyn, fixed), "4"))]
-      [] mode = "fwd"    -> [ok |-> TRUE, t |-> SatAdd(R(vm, PC), SatMul(SatAdd(SatAdd(dyn, fixed), "1"), "4"))]
-      [] mode = "bwd"    -> LET off == SatMul(SatAdd(SatAdd(dyn, fixed), "1"), "4") IN
-                            IF BN!Lt(R(vm, PC), off) THEN [ok |-> FALSE, t |-> "0"] ELSE [ok |-> TRUE, t |-> BN!Sub(R(vm, PC), off)]
-      [] mode = "assign" -> [ok |-> TRUE, t |-> SatAdd(dyn, SatMul(fixed, "4"))]
-JumpEff(vm, gasName, cond, mode, dyn, fixed, extraSet, extraPan) ==
-    IF ~cond THEN Eff(GasOf(vm, gasName), extraPan, (PC :> PcNext(vm)) @@ extraSet, <<>>, vm.slen)
-    ELSE LET j == JumpTarget(vm, mode, dyn, fixed)
-             bad == ~j.ok \/ ~BN!Lt(j.t, MemSizeBN)
-         IN Eff(GasOf(vm, gasName), extraPan \cup (IF bad THEN {"MemoryOverflow"} ELSE {}), (PC :> j.t) @@ extraSet, <<>>, vm.slen)
-
-FlowNames == {"JI","JNEI","JNZI","JMP","JNE","JMPF","JMPB","JNZF","JNZB","JNEF","JNEB","JAL"}
-FlowEff(vm, n, w) ==
-    LET a == R(vm, RA(w))  b == R(vm, RB(w))  c == R(vm, RC(w))
-        i6 == BN!FromNat(Imm06(w))  i12 == BN!FromNat(Imm12(w))  i18 == BN!FromNat(Imm18(w))  i24 == BN!FromNat(Imm24(w))
-        none == <<>>
-    IN CASE n = "JI"   -> JumpEff(vm, "ji", TRUE, "abs", i24, "0", none, {})
-         [] n = "JNEI" -> JumpEff(vm, "jnei", a # b, "abs", i12, "0", none, {})
-         [] n = "JNZI" -> JumpEff(vm, "jnzi", a # "0", "abs", i18, "0", none, {})
-         [] n = "JMP"  -> JumpEff(vm, "jmp", TRUE, "abs", a, "0", none, {})
-         [] n = "JNE"  -> JumpEff(vm, "jne", a # b, "abs", c, "0", none, {})
-         [] n = "JMPF" -> JumpEff(vm, "jmpf", TRUE, "fwd", a, i18, none, {})
-         [] n = "JMPB" -> JumpEff(vm, "jmpb", TRUE, "bwd", a, i18, none, {})
-         [] n = "JNZF" -> JumpEff(vm, "jnzf", a # "0", "fwd", b, i12, none, {})
-         [] n = "JNZB" -> JumpEff(vm, "jnzb", a # "0", "bwd", b, i12, none, {})
-         [] n = "JNEF" -> JumpEff(vm, "jnef", a # b, "fwd", c, i6, none, {})
-         [] n = "JNEB" -> JumpEff(vm, "jneb", a # b, "bwd", c, i6, none, {})
-         \* jump-and-link: the return address ($pc + 4) goes to rA ($zero discards it), target = rB + imm * 4
-         \* (when the jump itself panics the link register may or may not have been written already: pmay)
-         [] n = "JAL"  -> LET link == IF RA(w) = ZERO \/ ~Writable(RA(w)) THEN none ELSE (RA(w) :> PcNext(vm)) IN
-                          [JumpEff(vm, "jmp", TRUE, "assign", b, i12, link,
-                                   IF RA(w) # ZERO /\ ~Writable(RA(w)) THEN {"ReservedRegisterNotWritable"} ELSE {})
-                           EXCEPT !.pmay = link]
-
-(***************************************************************************)
-(* Memory instructions (C23, C24).                                         *)
-(* A write must lie in the current frame's stack [$ssp, $sp) or heap       *)
-(* [$hp, caller's $hp).  Ranges are BigNat (start, length).                *)
-(***************************************************************************)
-PrevHp(vm) == IF Len(vm.frames) = 0 THEN MemSizeBN ELSE vm.frames[Len(vm.frames)].regs[HP]
-OwnsStack(vm, a, n) == \/ (n = "0" /\ a = R(vm, SSP))
-                       \/ (BN!Le(R(vm, SSP), a) /\ BN!Lt(a, R(vm, SP)) /\ BN!Le(BN!Add(a, n), R(vm, SP)))
-OwnsHeap(vm, a, n)  == \/ (n = "0" /\ a = R(vm, HP))
-                       \/ (BN!Le(R(vm, HP), a) /\ R(vm, HP) # PrevHp(vm) /\ BN!Le(BN!Add(a, n), PrevHp(vm)))
-Owns(vm, a, n) == OwnsStack(vm, a, n) \/ OwnsHeap(vm, a, n)
-WritePanics(vm, a, n) == IF ReadPanics(vm, a, n) # {} THEN ReadPanics(vm, a, n)
-                         ELSE IF Owns(vm, a, n) THEN {} ELSE {"MemoryOwnership"}
-\* two non-empty ranges of equal length n share a byte
-Overlap(a, b, n) == n # "0" /\ BN!Lt(a, BN!Add(b, n)) /\ BN!Lt(b, BN!Add(a, n))
-AddrOverflow(a) == BN!Lt(BN!Max64, a)                       \* address computation left the 64-bit range
-MemRead(vm, a, n) == ReadBytes(vm.mem, BN!ToNat(a), BN!ToNat(n))    \* only when ReadPanics = {}
-DestPan(r) == IF Writable(r) THEN {} ELSE {"ReservedRegisterNotWritable"}
-StepPc(vm) == (PC :> PcNext(vm))
-
-LoadEff(vm, w, size, gasName) ==
-    LET a == BN!Add(R(vm, RB(w)), BN!FromNat(Imm12(w) * size))
-        n == BN!FromNat(size)
-        rp == IF AddrOverflow(a) THEN {"MemoryOverflow"} ELSE ReadPanics(vm, a, n)
-    IN Eff(GasOf(vm, gasName), rp \cup DestPan(RA(w)),
-           IF rp = {} THEN (RA(w) :> UnBE(MemRead(vm, a, n))) @@ StepPc(vm) ELSE <<>>, <<>>, vm.slen)
-StoreEff(vm, w, size, gasName) ==
-    LET a == BN!Add(R(vm, RA(w)), BN!FromNat(Imm12(w) * size))
-        n == BN!FromNat(size)
-        wp == IF AddrOverflow(a) THEN {"MemoryOverflow"} ELSE WritePanics(vm, a, n)
-    IN Eff(GasOf(vm, gasName), wp, StepPc(vm),
-           IF wp = {} THEN <<<<BN!ToNat(a), BEBig(R(vm, RB(w)), size)>>>> ELSE <<>>, vm.slen)
-ClearEff(vm, a, n, gasName) ==
-    LET wp == WritePanics(vm, a, n) IN
-    Eff(Dep(GasOf(vm, gasName), n), wp, StepPc(vm), IF wp = {} /\ n # "0" THEN <<<<BN!ToNat(a), Zeros(BN!ToNat(n))>>>> ELSE <<>>, vm.slen)
-CopyEff(vm, d, s0, n, gasName) ==
-    LET pd == ReadPanics(vm, d, n)  ps == ReadPanics(vm, s0, n)
-        pan == pd \cup ps \cup (IF pd = {} /\ ps = {} /\ Overlap(d, s0, n) THEN {"MemoryWriteOverlap"} ELSE {})
-                  \cup (IF pd = {} /\ ~Owns(vm, d, n) THEN {"MemoryOwnership"} ELSE {})
-    IN Eff(Dep(GasOf(vm, gasName), n), pan, StepPc(vm),
-           IF pan = {} /\ n # "0" THEN <<<<BN!ToNat(d), MemRead(vm, s0, n)>>>> ELSE <<>>, vm.slen)
-MeqEff(vm, w) ==
-    LET b == R(vm, RB(w))  c == R(vm, RC(w))  n == R(vm, RD(w))
-        pan == ReadPanics(vm, b, n) \cup ReadPanics(vm, c, n)
-    IN Eff(Dep(GasOf(vm, "meq"), n), pan \cup DestPan(RA(w)),
-           IF pan = {} THEN (RA(w) :> B2N(MemRead(vm, b, n) = MemRead(vm, c, n))) @@ StepPc(vm) ELSE <<>>, <<>>, vm.slen)
-
-\* heap allocation: $hp moves down by n, the new bytes read zero, a stack extent above the new $hp is cut off
-AlocEff(vm, w) ==
-    LET n == R(vm, RA(w))
-        tooBig == BN!Lt(R(vm, HP), n)
-        newHp == IF tooBig THEN "0" ELSE BN!Sub(R(vm, HP), n)
-        pan == IF tooBig THEN {"MemoryOverflow"} ELSE IF BN!Lt(newHp, R(vm, SP)) THEN {"MemoryGrowthOverlap"} ELSE {}
-    IN Eff(Dep(GasOf(vm, "aloc"), n), pan, (HP :> newHp) @@ StepPc(vm),
-           IF pan = {} /\ n # "0" THEN <<<<BN!ToNat(newHp), Zeros(BN!ToNat(n))>>>> ELSE <<>>,
-           IF pan = {} /\ BN!ToNat(newHp) < vm.slen THEN BN!ToNat(newHp) ELSE vm.slen)
-\* stack frame extension / shrinking
-NewSpEff(vm, gas, newSp, pan0) ==
-    LET pan == IF pan0 # {} THEN pan0
-               ELSE IF BN!Lt(newSp, R(vm, SSP)) THEN {"MemoryOverflow"}
-               ELSE IF BN!Lt(R(vm, HP), newSp) THEN {"MemoryGrowthOverlap"} ELSE {}
-    IN Eff(gas, pan, (SP :> newSp) @@ StepPc(vm), <<>>,
-           IF pan = {} /\ BN!ToNat(newSp) > vm.slen THEN BN!ToNat(newSp) ELSE vm.slen)
-CfeEff(vm, n, gasName) == LET s == BN!Add(R(vm, SP), n) IN
-    NewSpEff(vm, Dep(GasOf(vm, gasName), n), s, IF AddrOverflow(s) THEN {"MemoryOverflow"} ELSE {})
-CfsEff(vm, n) == IF BN!Lt(R(vm, SP), n) THEN NewSpEff(vm, GasOf(vm, "cfsi"), "0", {"MemoryOverflow"})
-                 ELSE NewSpEff(vm, GasOf(vm, "cfsi"), BN!Sub(R(vm, SP), n), {})
-
-\* push / pop of selected registers: bit i of the 24-bit mask selects register base + i (base 16 low, 40 high)
-MaskRegs(base, mask) == {base + i : i \in {j \in 0..23 : (mask \div (2 ^ j)) % 2 = 1}}
-RECURSIVE RegsBytes(_, _, _)
-RegsBytes(vm, rs, r) == IF r > 63 THEN "" ELSE (IF r \in rs THEN BEBig(R(vm, r), 8) ELSE "") \o RegsBytes(vm, rs, r + 1)
-PushEff(vm, w, base, gasName) ==
-    LET rs == MaskRegs(base, Imm24(w))
-        n  == BN!FromNat(8 * Cardinality(rs))
-        s  == Sat64(BN!Add(R(vm, SP), n))
-        pan == IF BN!Lt(R(vm, HP), s) THEN {"MemoryGrowthOverlap"} ELSE {}
-    IN Eff(GasOf(vm, gasName), pan, (SP :> s) @@ StepPc(vm),
-           IF pan = {} /\ rs # {} THEN <<<<BN!ToNat(R(vm, SP)), RegsBytes(vm, rs, 0)>>>> ELSE <<>>,
-           IF pan = {} /\ BN!ToNat(s) > vm.slen THEN BN!ToNat(s) ELSE vm.slen)
-\* the k-th selected register (in increasing order) receives the k-th word
-Rank(rs, r) == Cardinality({q \in rs : q < r})
-PopEff(vm, w, base, gasName) ==
-    LET rs == MaskRegs(base, Imm24(w))
-        n  == BN!FromNat(8 * Cardinality(rs))
-        under == BN!Lt(R(vm, SP), n)
-        s  == IF under THEN "0" ELSE BN!Sub(R(vm, SP), n)
-        pan == IF under \/ BN!Lt(s, R(vm, SSP)) THEN {"MemoryOverflow"} ELSE {}
-    IN Eff(GasOf(vm, gasName), pan,
-           IF pan = {} THEN [r \in rs |-> UnBE(ReadBytes(vm.mem, BN!ToNat(s) + 8 * Rank(rs, r), 8))] @@ (SP :> s) @@ StepPc(vm) ELSE <<>>,
-           <<>>, vm.slen)
-
-MemNames == {"LB","LQW","LHW","LW","SB","SQW","SHW","SW","MCL","MCLI","MCP","MCPI","MEQ","ALOC","CFEI","CFE","CFSI","CFS","PSHL","PSHH","POPL","POPH"}
-MemEff(vm, n, w) ==
-    CASE n = "LB" -> LoadEff(vm, w, 1, "lb") [] n = "LQW" -> LoadEff(vm, w, 2, "lw") [] n = "LHW" -> LoadEff(vm, w, 4, "lw")
-      [] n = "LW" -> LoadEff(vm, w, 8, "lw")
-      [] n = "SB" -> StoreEff(vm, w, 1, "sb") [] n = "SQW" -> StoreEff(vm, w, 2, "sw") [] n = "SHW" -> StoreEff(vm, w, 4, "sw")
-      [] n = "SW" -> StoreEff(vm, w, 8, "sw")
-      [] n = "MCL"  -> ClearEff(vm, R(vm, RA(w)), R(vm, RB(w)), "mcl")
-      [] n = "MCLI" -> ClearEff(vm, R(vm, RA(w)), BN!FromNat(Imm18(w)), "mcli")
-      [] n = "MCP"  -> CopyEff(vm, R(vm, RA(w)), R(vm, RB(w)), R(vm, RC(w)), "mcp")
-      [] n = "MCPI" -> CopyEff(vm, R(vm, RA(w)), R(vm, RB(w)), BN!FromNat(Imm12(w)), "mcpi")
-      [] n = "MEQ"  -> MeqEff(vm, w)
-      [] n = "ALOC" -> AlocEff(vm, w)
-      [] n = "CFEI" -> CfeEff(vm, BN!FromNat(Imm24(w)), "cfei")
-      [] n = "CFE"  -> CfeEff(vm, R(vm, RA(w)), "cfe")
-      [] n = "CFSI" -> CfsEff(vm, BN!FromNat(Imm24(w)))
-      [] n = "CFS"  -> CfsEff(vm, R(vm, RA(w)))
-      [] n = "PSHL" -> PushEff(vm, w, 16, "pshl") [] n = "PSHH" -> PushEff(vm, w, 40, "pshh")
-      [] n = "POPL" -> PopEff(vm, w, 16, "popl") [] n = "POPH" -> PopEff(vm, w, 40, "poph")
+EXTENDS VmBase, VmAlu, VmFlow, VmMem, VmCall, VmAssets
 
 (***************************************************************************)
 (* Dispatch                                                                *)
@@ -362,6 +17,8 @@ EffectOf(vm, w) ==
          ELSE IF n = "FLAG" THEN FlagEff(vm, w)
          ELSE IF n \in FlowNames THEN FlowEff(vm, n, w)
          ELSE IF n \in MemNames THEN MemEff(vm, n, w)
+         ELSE IF n \in CallNames THEN CallFamEff(vm, n, w)
+         ELSE IF n \in AssetNames THEN AssetEff(vm, n, w)
          ELSE Unmodelled
 
 \* ---- gas charge applied to the register file ----
@@ -370,9 +27,20 @@ Charged(vm, g) == (CGAS :> BN!Sub(R(vm, CGAS), g)) @@ (GGAS :> BN!Sub(R(vm, GGAS
 OutOfGasRegs(vm) == (CGAS :> "0") @@ (GGAS :> BN!SatSub(R(vm, GGAS), R(vm, CGAS)))
 WithRegs(vm, upd) == [r \in 0..63 |-> IF r \in DOMAIN upd THEN upd[r] ELSE vm.regs[r]]
 
+\* Candidate effects of a word: when the word names $cgas / $ggas as a register operand the operand may have been read
+\* before or after the instruction's own charge — both readings are admitted.
+UsesGasReg(w) == {RA(w), RB(w), RC(w), RD(w)} \cap {GGAS, CGAS} # {}
+Effs(vm, w) ==
+    LET e0 == EffectOf(vm, w) IN
+    IF e0.x /\ ValidWord(w) /\ UsesGasReg(w) /\ CanPay(vm, e0.gas) /\ e0.gas # "0"
+    THEN {e0, [EffectOf([vm EXCEPT !.opv = Charged(vm, e0.gas)], w) EXCEPT !.gas = e0.gas]}
+    ELSE {e0}
+
 \* successful completion of an exactly modelled instruction
 OkRegs(vm, e) == WithRegs(vm, e.set @@ Charged(vm, e.gas))       \* an instruction never sets a gas register itself
 OkMem(vm, e)  == ApplyWrites(vm.mem, e.wr, 1)
+\* other fields of the vm record updated by the instruction (frames, contract balances, ...)
+OkVm(vm, e) == [f \in DOMAIN vm |-> IF f \in DOMAIN e.upd THEN e.upd[f] ELSE vm[f]]
 
 \* universal step obligations (hold for EVERY instruction, modelled or not) — C26, C29
 GasMonotone(pre, post) == /\ BN!Le(post[GGAS], pre[GGAS])
